@@ -134,7 +134,13 @@ def gen_malformed(rng):
 
 
 def build_targets(case):
-    """shapes -> {(x, y): set(cores)} with shuffled insertion order."""
+    """shapes -> {(x, y): set(cores)} with shuffled insertion order; a shrunk
+    case lists its points explicitly, in insertion order."""
+    if "points" in case:
+        targets = {}
+        for x, y, p in case["points"]:
+            targets.setdefault((x, y), set()).add(p)
+        return targets
     acc = {}
     for s in case["shapes"]:
         if s[0] == "rect":
@@ -207,6 +213,51 @@ def impl_region(x, y, level):
 TREE_LIMIT = 2000
 
 
+def judge(ctx, points_list):
+    """oracle verdict keys for several explicit point lists (one driver call)."""
+    reqs, outs = [], []
+    for pts in points_list:
+        targets = build_targets({"points": pts})
+        order = [[x, y, p] for (x, y), cs in targets.items() for p in cs]
+        r = impl_compress(targets)
+        outs.append(r)
+        if "ok" in r:
+            reqs.append({"suite": "c12", "op": "oracle", "targets": sorted(order), "out": r["ok"]})
+    reps = iter(ctx.lean(reqs))
+    keys = []
+    for r in outs:
+        if "ok" not in r:
+            keys.append({"exception-on-valid-targets"})
+        else:
+            o = next(reps)
+            keys.append({k for k, bad in (("not-exact", not o["exact"]), ("not-increasing", not o["sorted"])) if bad})
+    return keys
+
+
+def shrink(ctx, case, key):
+    """greedy delta debugging on the explicit point list, keeping the same finding key."""
+    targets = build_targets(case)
+    pts = [[x, y, p] for (x, y), cs in targets.items() for p in cs]
+    if key not in judge(ctx, [pts])[0]:
+        return case
+    n, rounds = 2, 0
+    while len(pts) >= 2 and rounds < 250:
+        rounds += 1
+        size = max(1, len(pts) // n)
+        cands = [pts[:i] + pts[i + size:] for i in range(0, len(pts), size)]
+        cands = [c for c in cands if c][:64]
+        verdicts = judge(ctx, cands)
+        hit = [c for c, v in zip(cands, verdicts) if key in v]
+        if hit:
+            pts = min(hit, key=len)
+            n = max(n - 1, 2)
+        elif size == 1:
+            break
+        else:
+            n = min(len(pts), n * 2)
+    return {"kind": "compress", "points": pts}
+
+
 def eval_cases(ctx, cases):
     reqs, idx = [], []
     for c in cases:
@@ -235,7 +286,7 @@ def eval_cases(ctx, cases):
     for (c, what), r in zip(idx, ctx.lean(reqs)):
         c[what] = r
     for c in cases:
-        desc = {k: v for k, v in c.items() if k in ("kind", "shapes", "order", "x", "y", "level")}
+        desc = {k: v for k, v in c.items() if k in ("kind", "shapes", "order", "points", "x", "y", "level")}
         ctx.traces += 1
         if c["kind"] == "region":
             if c["impl"] != c["model"]:
@@ -278,14 +329,22 @@ def eval_cases(ctx, cases):
                 ctx.tag("several_core_masks")
             nontriv = len(out) >= 2 or any(l < 3 for l in levels)
             o = c["oracle"]
-            if not o["exact"]:
-                ctx.violation("not-exact",
-                              "the emitted pairs do not select exactly the requested cores once each under the "
-                              "documented region word: %d targets, output %s" % (c["_n"], str(out)[:200]), desc)
-            if not o["sorted"]:
-                ctx.violation("not-increasing",
-                              "the emitted pairs are not in strictly increasing (region, core mask) order: %s"
-                              % str(out)[:300], desc)
+            for key, bad, what in (
+                    ("not-exact", not o["exact"],
+                     "the emitted pairs do not select exactly the requested cores once each under the documented "
+                     "region word"),
+                    ("not-increasing", not o["sorted"],
+                     "the emitted pairs are not in strictly increasing (region, core mask) order")):
+                if not bad:
+                    continue
+                small = desc
+                if key not in ctx.extra.setdefault("_shrunk", set()) and c["_n"] <= 20000:
+                    ctx.extra["_shrunk"].add(key)
+                    small = shrink(ctx, desc, key)
+                st = build_targets(small)
+                ctx.violation(key, "%s: targets %s -> output %s" % (
+                    what, str({k: sorted(v) for k, v in st.items()})[:300],
+                    str(impl_compress(st))[:300]), small)
         ctx.case(desc, nontriv)
 
 
@@ -319,19 +378,22 @@ def run(ctx):
             cases.append(gen_malformed(rng))
         else:
             cases.append(gen_case(rng, not ctx.quick))
+    # whole machine, one core: the root keeps 0xffff (the only node that may)
+    cases.append({"kind": "compress", "shapes": [["rect", 0, 0, 256, 256, [rng.randrange(18)]]], "order": 1})
     if ctx.quick:
         cases += region_cases(ctx, nreg)
     else:
         cases += [{"kind": "region", "x": x, "y": y, "level": 3} for x in range(256) for y in range(256)]
         cases += [{"kind": "region", "x": x, "y": y, "level": l} for x in range(0, 256, 3) for y in range(0, 256, 5)
                   for l in (0, 1, 2, 4)]
-        # whole machine, one core: the root keeps 0xffff
-        cases.append({"kind": "compress", "shapes": [["rect", 0, 0, 256, 256, [1]]], "order": 1})
         cases.append({"kind": "compress", "shapes": [["rect", 0, 0, 256, 256, [1]], ["hole", 255, 255, [1]]], "order": 2})
     for i in range(0, len(cases), 400):
         eval_cases(ctx, cases[i:i + 400])
+    ctx.extra.pop("_shrunk", None)
 
 
 def replay(ctx, payload):
     ctx.extra["rule"] = RULE
+    ctx.extra["_shrunk"] = {"not-exact", "not-increasing"}   # replay the case as recorded
     eval_cases(ctx, [payload["case"]])
+    ctx.extra.pop("_shrunk", None)
